@@ -151,6 +151,11 @@ func (cx *Ctx) runC07() {
 	}
 	_ = sitePermKinds
 
+	// ---- (a') process environment: a sample of the specs again, identity resolution, in fresh processes on two other
+	// simulated machines (what runtime.NumCPU / os.Getenv / ... answered when the packages were initialised)
+	cx.phase("C07: process environments")
+	envStats := cx.c07Env(jobs, results, cx.count(200, 6000))
+
 	// ---- (b) history independence
 	cx.phase("C07: histories")
 	histStats := cx.c07Histories(&r, nHist, gc)
@@ -205,6 +210,7 @@ func (cx *Ctx) runC07() {
 		"faults_fired":               map[string]int{"map-order permutation (non-identity)": sumNonIdentity(permKinds), "runs with a non-zero clock origin": clockVaried, "runs with non-default entropy": entropyVaried},
 		"histories":                  histStats,
 		"long_histories":             longStats,
+		"process_environments":       envStats,
 		"real_runtime_adjunct":       realStats,
 		"determinism_selftest":       st,
 		"regression_corpus_specs":     corpusN,
@@ -1085,4 +1091,57 @@ func (cx *Ctx) c07LongHistories(r *rng, n int, gc genCfg) map[string]any {
 	return map[string]any{"histories": n, "calls_executed": calls, "longest_history_calls": longest, "fresh_process_references_compared": compared,
 		"history_jobs_that_died": died, "histories_by_distance_between_related_calls": dist,
 		"shape": "[A1..Ak, one filler call repeated d times, B1..Bk]; Bi = Ai changed in exactly one respect (edge re-targeted / two targets swapped / one option changed); every Ai and Bi compared with the same call alone in a fresh process"}
+}
+
+func (cx *Ctx) c07Env(jobs []*spec.Job, results []JobResult, n int) map[string]any {
+	var sample []*spec.Job
+	var baseOf []JobResult
+	for i, jr := range results {
+		if len(sample) >= n {
+			break
+		}
+		if jr.Res == nil || jr.Res.Error != "" || len(jr.Res.Outcomes) == 0 || jr.Res.Outcomes[0].Verdict == "BUDGET" {
+			continue
+		}
+		j := *jobs[i]
+		j.ID = len(sample)
+		j.Res = []spec.Resolution{j.Res[0]}
+		sample = append(sample, &j)
+		baseOf = append(baseOf, jr)
+	}
+	compared, differ := 0, 0
+	for _, pool := range []string{"simfresh-env1", "simfresh-env2"} {
+		p := cx.poolFor(pool)
+		for k, er := range p.Run(sample, nil) {
+			base := baseOf[k]
+			b := JobResult{Job: sample[k], Res: &spec.Result{Outcomes: base.Res.Outcomes[:1]}}
+			compared++
+			if v, key, _, _ := cx.oracleEnv([]JobResult{b, er}); v {
+				differ++
+				if cx.hasViolation(key) {
+					cx.report(key, "", nil)
+					continue
+				}
+				// reproduce in fresh processes, with the full result text; then shrink the graph
+				viol := func(c spec.Call) (bool, *ReplayFile, string, string) {
+					j := spec.Job{ID: 0, Kind: "multi", Calls: []spec.Call{c}, Res: sample[k].Res, Budgets: cx.Budgets, WantFull: true}
+					rf := &ReplayFile{Property: "C07", Oracle: "c07.env", Jobs: []ReplayJob{{Pool: "simfresh", Job: j}, {Pool: pool, Job: j}}}
+					v, key, what, fp := cx.evalReplay(rf)
+					rf.Key, rf.What, rf.Expect = key, what, fp
+					return v, rf, key, what
+				}
+				c := sample[k].Calls[0]
+				if ok, _, _, _ := viol(c); !ok {
+					cx.trouble("an environment-dependent result did not reproduce in fresh processes")
+					continue
+				}
+				c = shrinkCall(c, func(t spec.Call) bool { ok, _, _, _ := viol(t); return ok }, 40*time.Second)
+				if ok, rf, key, what := viol(c); ok {
+					cx.report(key, what, rf)
+				}
+			}
+		}
+	}
+	return map[string]any{"specs_sampled": len(sample), "processes_on_other_simulated_machines_compared": compared, "differing": differ,
+		"what_varies": "answers of runtime.NumCPU / GOMAXPROCS, os.Getenv / LookupEnv, os.Getpid, os.Hostname while packages are initialised (VERIF_SIM_ENV); inside a call the same queries are a dimension of the resolution"}
 }
